@@ -10,55 +10,104 @@
 (*   hist     the API history with the abstract result of every compile    *)
 (* The slot-id and subroutine-id counters only ever influence a program    *)
 (* through the *relative order* of its own objects' ids, which no other    *)
-(* activity can change; they are therefore not state of this model (the    *)
-(* conformance replay observes them and the trace specification requires   *)
-(* that results do not depend on them).                                    *)
+(* activity can change - with one exception that the code really has and   *)
+(* that is modelled here as it is (finding A19): a Router caches the       *)
+(* method-handler declarations evaluated by its first compilation attempt  *)
+(* (with the slot ids they got) and rewinds the slot counter when the      *)
+(* attempt ends.  att[p] says that instance p has been through an attempt, *)
+(* stale[p] that some *other* activity allocated slots since then (the     *)
+(* cached ids no longer sit directly above the counter).  A later          *)
+(* compilation of such an instance may number slots differently: result    *)
+(* "a19".  Routers with several methods collide on every re-compilation.   *)
+(* Whether an action allocates slots is a parameter (adv): TLC chooses it  *)
+(* at the design level, the trace specification binds it to the recorded   *)
+(* movement of the counter.                                                *)
 (* A compile of a program whose subroutine body raises leaves the marker   *)
 (* set unless RestoreOnException - the constant switches between the two   *)
-(* possible implementations of the marker's context manager.               *)
+(* possible implementations of the marker's context manager.  A Router     *)
+(* compilation that raises rewinds the counter like a successful one       *)
+(* unless ~RouterCleansOnException: then the failed attempt itself leaves  *)
+(* the counter above the cached declarations ("dirty").                    *)
 (***************************************************************************)
 EXTENDS Naturals, Sequences, TLC, Json
 
-CONSTANTS RestoreOnException, MaxDepth
+CONSTANTS RestoreOnException, RouterCleansOnException, MaxDepth
 
-Progs == {"plain", "subs", "abimain", "abisub", "router", "tmpl", "itxn"}
+Progs == {"plain", "subs", "abimain", "abisub", "router", "router1", "tmpl", "itxn"}
+Routers == {"router", "router1"}
+Multi(p) == p = "router"                          \* several method handlers: cached ids collide on every re-compilation
 Failing == {"raise8", "raise6", "lowver"}         \* compilations that end in a PyTeal error
-AbiInMain(p) == p \in {"abimain", "router"}       \* ABI values are created outside any subroutine when p is built
-Opts(p) == CASE p = "abisub" -> {"v8", "v8nofp", "v6"} [] p = "router" -> {"v6", "v8"} [] OTHER -> {"v6", "v9"}
+AbiInMain(p) == p \in {"abimain", "router", "router1"}       \* ABI values are created outside any subroutine when p is built
+Opts(p) == CASE p = "abisub" -> {"v8", "v8nofp", "v6"} [] p \in Routers -> {"v6", "v8"} [] OTHER -> {"v6", "v9"}
 
-VARIABLES marker, inst, hist
-vars == <<marker, inst, hist>>
+VARIABLES marker, inst, att, stale, dirty, hist
+vars == <<marker, inst, att, stale, dirty, hist>>
 
-Ev(a, p, o, r) == [act |-> a, p |-> p, o |-> o, res |-> r]
+Ev(a, p, o, r) == [act |-> a, p |-> p, o |-> o, res |-> r, pre |-> ""]
 
-Init == marker = "none" /\ inst = [p \in Progs |-> "absent"] /\ hist = <<>>
+Init == /\ marker = "none" /\ inst = [p \in Progs |-> "absent"] /\ hist = <<>>
+        /\ att = [p \in Routers |-> FALSE] /\ stale = [p \in Routers |-> FALSE] /\ dirty = [p \in Routers |-> FALSE]
 
-Build(p) == /\ inst' = [inst EXCEPT ![p] = IF marker = "set" /\ AbiInMain(p) THEN "tainted" ELSE "clean"]
-            /\ hist' = Append(hist, Ev("build", p, "", "")) /\ UNCHANGED marker
+\* slots allocated by anything but an attempt on router instance `self` ("" = none) make every attempted instance stale
+Allocated(adv, self) == stale' = [q \in Routers |-> stale[q] \/ (adv /\ att[q] /\ q # self)]
+
+Build(p, adv) ==
+  /\ inst' = [inst EXCEPT ![p] = IF marker = "set" /\ AbiInMain(p) THEN "tainted" ELSE "clean"]
+  /\ att' = [q \in Routers |-> att[q] /\ q # p]                   \* a new instance has no cached declarations
+  /\ dirty' = [q \in Routers |-> dirty[q] /\ q # p]
+  /\ stale' = [q \in Routers |-> q # p /\ (stale[q] \/ (adv /\ att[q]))]
+  /\ hist' = Append(hist, Ev("build", p, "", "")) /\ UNCHANGED marker
 
 \* compiling evaluates subroutine bodies inside the marker's context and restores it on the normal path
-Compile(p, o) == /\ inst[p] # "absent"
-                 /\ hist' = Append(hist, Ev("compile", p, o, inst[p])) /\ UNCHANGED <<marker, inst>>
+Result(p) == IF inst[p] = "tainted" THEN "tainted"
+             ELSE IF p \in Routers /\ att[p] /\ dirty[p] THEN "dirty"
+             ELSE IF p \in Routers /\ att[p] /\ (Multi(p) \/ stale[p]) THEN "a19"
+             ELSE "clean"
+Compile(p, o, adv) ==
+  /\ inst[p] # "absent"
+  /\ hist' = Append(hist, [Ev("compile", p, o, Result(p)) EXCEPT !.pre = IF p \in Routers /\ att[p] THEN "attempted" ELSE ""])
+  /\ att' = IF p \in Routers THEN [att EXCEPT ![p] = TRUE] ELSE att
+  /\ Allocated(adv /\ p \notin Routers, p)                        \* a Router compilation rewinds the counter
+  /\ UNCHANGED <<marker, inst, dirty>>
 
 \* a compilation that raises: inside a subroutine body evaluated for frame pointers ("raise8") the marker is set
-FailCompile(f) == /\ marker' = IF f = "raise8" /\ ~RestoreOnException THEN "set" ELSE marker
-                  /\ hist' = Append(hist, Ev("fail", f, "", "error")) /\ UNCHANGED inst
+FailCompile(f, adv) ==
+  /\ marker' = IF f = "raise8" /\ ~RestoreOnException THEN "set" ELSE marker
+  /\ Allocated(adv, "")
+  /\ hist' = Append(hist, Ev("fail", f, "", "error")) /\ UNCHANGED <<inst, att, dirty>>
+
+\* a compilation attempt on an existing Router instance that ends in a PyTeal error after the handlers were evaluated
+FailRouter(p) ==
+  /\ p \in Routers /\ inst[p] # "absent"
+  /\ att' = [att EXCEPT ![p] = TRUE]
+  /\ dirty' = [dirty EXCEPT ![p] = dirty[p] \/ ~RouterCleansOnException]
+  /\ Allocated(~RouterCleansOnException, p)                        \* without cleanup the attempt itself moves the counter
+  /\ hist' = Append(hist, Ev("failr", p, "v5", "error")) /\ UNCHANGED <<marker, inst>>
 
 \* unrelated allocations (ScratchVars, subroutine definitions) only advance the counters
-Noise == hist' = Append(hist, Ev("noise", "", "", "")) /\ UNCHANGED <<marker, inst>>
+Noise == hist' = Append(hist, Ev("noise", "", "", "")) /\ Allocated(TRUE, "") /\ UNCHANGED <<marker, inst, att, dirty>>
 
 Next == /\ Len(hist) < MaxDepth
-        /\ \/ \E p \in Progs : Build(p) \/ \E o \in Opts(p) : Compile(p, o)
-           \/ \E f \in Failing : FailCompile(f)
+        /\ \/ \E p \in Progs, adv \in BOOLEAN : Build(p, adv) \/ \E o \in Opts(p) : Compile(p, o, adv)
+           \/ \E f \in Failing, adv \in BOOLEAN : FailCompile(f, adv)
+           \/ \E p \in Routers : FailRouter(p)
            \/ Noise
 Spec == Init /\ [][Next]_vars
 
 \* ---- properties -------------------------------------------------------------------------
-HistoryIndependence == \A i \in 1..Len(hist) : hist[i].act = "compile" => hist[i].res = "clean"
+\* the property as stated (violated by the code as it is: finding A19) and the property modulo that recorded deviation
+HistoryIndependenceStrict == \A i \in 1..Len(hist) : hist[i].act = "compile" => hist[i].res = "clean"
+HistoryIndependence == \A i \in 1..Len(hist) : hist[i].act = "compile" => hist[i].res \in {"clean", "a19"}
 MarkerRestored == marker = "none"
 
 \* printing of complete histories for the conformance replay
 RECURSIVE Render(_, _)
 Render(h, i) == IF i > Len(h) THEN "" ELSE h[i].act \o ":" \o h[i].p \o ":" \o h[i].o \o (IF i < Len(h) THEN "," ELSE "") \o Render(h, i + 1)
-Emit == Len(hist) = MaxDepth => PrintT("H|" \o Render(hist, 1))
+\* coverage signature of the last transition: the event with its predicted result, what the instance had been through,
+\* and the kind of the event before it (relative to the same instance) - the harness replays at least one history per signature
+Sig == LET n == Len(hist)  e == hist[n]
+           prev == IF n = 1 THEN "first" ELSE hist[n - 1].act \o (IF hist[n - 1].act \in {"build", "compile", "failr"}
+                                                                  THEN (IF hist[n - 1].p = e.p THEN ":same" ELSE ":other") ELSE "")
+       IN e.act \o ":" \o e.p \o ":" \o e.o \o ":" \o e.res \o ":" \o e.pre \o ":" \o (IF e.act = "compile" THEN prev ELSE "")
+Emit == Len(hist) = MaxDepth => PrintT("H|" \o Render(hist, 1) \o "|" \o Sig)
 =============================================================================
